@@ -210,12 +210,16 @@ def text_read(fmt, endian, f):
 # ----------------------------------------------------------------------------- arc writer
 def arc_write(files, rng, padded=True, permute_bodies=True, unaligned=False, gaps=False, count_first=True,
               extra_labels=True, shuffle_tables=False, drop=None, bad_name=None, bad_range=None, count_delta=0,
-              junk_text=False, raw_offset=None, dup_strings=False):
+              junk_text=False, raw_offset=None, dup_strings=False, tail=0.0, end_exact=False, share=False):
     """files: [(name bytes, body bytes)] in RECORD order.  Returns (image, expected) with expected = 'ok' or the
     name of the error the property demands.  Knobs: header padding, body placement (order, alignment, gaps),
     Count before/after Info, extra labels; error variants: drop = 'count' | 'info' (label missing),
     bad_name = i (record i has no string cell), bad_range = i (record i's range leaves the data region),
-    count_delta (Count says more/fewer records than the table holds), raw_offset = (i, value) plants an offset field."""
+    count_delta (Count says more/fewer records than the table holds), raw_offset = (i, value) plants an offset field.
+    Placement knobs: tail = probability that a body is placed AFTER the Count/Info tables, end_exact = the last such body
+    ends exactly at the end of the data region (address + size = size of the data: the boundary of "inside"),
+    share = a body whose bytes already occur among the bodies written so far may reuse that range (shared / overlapping
+    ranges).  The knobs draw random numbers only when switched on."""
     d = bytearray()
     if padded:
         d += bytes(0x60)
@@ -226,7 +230,16 @@ def arc_write(files, rng, padded=True, permute_bodies=True, unaligned=False, gap
     if permute_bodies:
         rng.shuffle(order)
     offs = {}
+    late = []                      # bodies placed after the tables
     for i in order:
+        if tail and rng.random() < tail:
+            late.append(i)
+            continue
+        if share and files[i][1] and rng.random() < 0.6:
+            at = bytes(d).find(files[i][1], base)
+            if at >= 0:
+                offs[i] = at - base
+                continue
         if gaps and rng.random() < 0.5:
             d += bytes(rng.randint(1, 255) for _ in range(rng.randint(1, 9)))
         if not unaligned:
@@ -234,6 +247,7 @@ def arc_write(files, rng, padded=True, permute_bodies=True, unaligned=False, gap
         offs[i] = len(d) - base
         d += files[i][1]
     d += bytes(align4(len(d)) - len(d))
+    patch = {}                     # record i -> position of its offset field (late bodies)
     labels = []
     strings = {}
 
@@ -255,10 +269,12 @@ def arc_write(files, rng, padded=True, permute_bodies=True, unaligned=False, gap
             else:
                 strings[len(d)] = name
                 d.extend(bytes(4))
-            off = offs[i]
+            off = offs.get(i, 0)
             size = len(body)
             if raw_offset is not None and raw_offset[0] == i:
                 off = raw_offset[1]
+            elif i not in offs:
+                patch[i] = len(d) + 8
             d.extend(struct.pack("<III", i, size, off & 0xFFFFFFFF))
 
     if count_first:
@@ -267,6 +283,19 @@ def arc_write(files, rng, padded=True, permute_bodies=True, unaligned=False, gap
     else:
         put_info()
         put_count()
+    for n, i in enumerate(late):
+        last = n == len(late) - 1
+        if gaps and rng.random() < 0.5:
+            d += bytes(rng.randint(1, 255) for _ in range(rng.randint(1, 9)))
+        if last and end_exact:
+            d += bytes((-(len(d) + len(files[i][1]))) % 4)      # the body will end on the last byte of the data region
+        elif not unaligned:
+            d += bytes(align4(len(d)) - len(d))
+        offs[i] = len(d) - base
+        if i in patch:
+            d[patch[i]:patch[i] + 4] = struct.pack("<I", offs[i] & 0xFFFFFFFF)
+        d += files[i][1]
+    d += bytes(align4(len(d)) - len(d))
     if extra_labels:
         labels.append((base, b"Data"))
     expected = "ok"
